@@ -5,7 +5,11 @@ import os
 
 LEAN = os.path.join(os.path.dirname(os.path.dirname(os.path.abspath(__file__))), "lean")
 ob = json.load(open(os.path.join(LEAN, "obligations.json")))
+# optional top-level key "_imports": {"Cxx": ["Abmarl.Props.Examples", ...]} -- further modules that hold theorems
+# of the property (Props/Cxx.lean must not import them: they import it)
+extra = ob.pop("_imports", {})
 for pid, names in ob.items():
     with open(os.path.join(LEAN, "Abmarl", "Audit", pid + ".lean"), "w") as f:
-        f.write(f"import Abmarl.Props.{pid}\n" + "".join(f"#print axioms {n}\n" for n in names))
+        f.write(f"import Abmarl.Props.{pid}\n" + "".join(f"import {m}\n" for m in extra.get(pid, [])) +
+                "".join(f"#print axioms {n}\n" for n in names))
 print("audit files:", sorted(ob))
